@@ -7,6 +7,7 @@ import (
 	"strconv"
 	"strings"
 	"sync"
+	"time"
 
 	"github.com/MichaelMure/git-bug/entities/bug"
 	"github.com/MichaelMure/git-bug/entity"
@@ -58,6 +59,7 @@ type SeqEvent struct {
 	Changed    bool     `json:"changed"`
 	Race       bool     `json:"race"`
 	AnonOK     bool     `json:"anonok"` // Race: the request without a user was refused and returned nothing
+	Hung       bool     `json:"hung"`   // the request (or the look at the state around it) did not come back
 }
 
 func token(s, prefix string) int {
@@ -147,14 +149,19 @@ func SeqCmd(args []string) {
 		hx.Must(json.Unmarshal([]byte(lines[n]), &sc))
 		configured := []string{"same", "other", "none"}[n%3]
 		w := newWorld(configured)
-		defer w.close()
+		hung := false
+		defer func() {
+			if !hung {
+				w.close()
+			}
+		}()
 		u, err := w.rc.Identities().Resolve(w.other)
 		hx.Must(err)
 		sb, _, err := w.rc.Bugs().NewRaw(u, 1600000100, "title 0", "message 0", nil, nil)
 		hx.Must(err)
 		id := sb.Id()
 		evs := []SeqEvent{{Ev: "Reset", Sess: n, Configured: configured, Add: []string{}, Rem: []string{}, Returned: BugProj{Labels: []string{}, Text: []int{}, Was: -1}, Stored: w.projStored(id)}}
-		for k, r := range sc.Reqs {
+		one := func(k int, r SeqReq) SeqEvent {
 			k1 := k + 1
 			ev := SeqEvent{Ev: "Request", Sess: n, Configured: configured, Name: r.Name, Auth: r.Auth, I: r.I, Add: orEmpty(r.Add), Rem: orEmpty(r.Rem),
 				Returned: BugProj{Labels: []string{}, Text: []int{}, Was: -1}}
@@ -258,7 +265,22 @@ func SeqCmd(args []string) {
 					}
 				}
 			}
-			evs = append(evs, ev)
+			return ev
+		}
+		for k, r := range sc.Reqs {
+			ch := make(chan SeqEvent, 1)
+			go func() { ch <- one(k, r) }()
+			select {
+			case ev := <-ch:
+				evs = append(evs, ev)
+			case <-time.After(stepTimeout):
+				hung = true
+				evs = append(evs, SeqEvent{Ev: "Request", Sess: n, Configured: configured, Name: r.Name, Auth: r.Auth, I: r.I, Add: orEmpty(r.Add), Rem: orEmpty(r.Rem), Hung: true,
+					Detail: fmt.Sprintf("did not come back within %s", stepTimeout), Returned: BugProj{Labels: []string{}, Text: []int{}, Was: -1}, Stored: BugProj{Labels: []string{}, Text: []int{}, Was: -1}})
+			}
+			if hung {
+				break
+			}
 		}
 		results[n] = evs
 	})
